@@ -127,17 +127,17 @@ Proof.
   change (Some (ROk d)) with ((fun p : bytes * dt => Some (ROk (snd p))) (md_numpy m, d)). now apply in_map.
 Qed.
 
-(* forall over the seven finite arguments of adjust *)
-Definition forall_adjust (P : bool -> bool -> bool -> dt -> option res -> bool -> bool -> option bool -> bool) : bool :=
+(* forall over the finite arguments of adjust *)
+Definition forall_adjust (P : bool -> bool -> bool -> dt -> option res -> bool -> bool -> bool -> option bool -> bool) : bool :=
   forallb (fun i96 => forallb (fun has_md => forallb (fun pn => forallb (fun d => forallb (fun np =>
-  forallb (fun tz => forallb (fun claims => forallb (fun ev => P i96 has_md pn d np tz claims ev)
-  ev_cases) all_bool) all_bool) np_results) typemap_codomain) all_bool) all_bool) all_bool.
+  forallb (fun tz => forallb (fun claims => forallb (fun cs => forallb (fun ev => P i96 has_md pn d np tz claims cs ev)
+  ev_cases) all_bool) all_bool) all_bool) np_results) typemap_codomain) all_bool) all_bool) all_bool.
 
 Lemma forall_adjust_spec P : forall_adjust P = true ->
-  forall i96 has_md pn d md tz claims ev, In d typemap_codomain ->
-    P i96 has_md pn d (option_map (fun m => lookup_name (t_npnames pinned) (md_numpy m)) md) tz claims ev = true.
+  forall i96 has_md pn d md tz claims cs ev, In d typemap_codomain ->
+    P i96 has_md pn d (option_map (fun m => lookup_name (t_npnames pinned) (md_numpy m)) md) tz claims cs ev = true.
 Proof.
-  unfold forall_adjust. intros H i96 has_md pn d md tz claims ev Hd.
+  unfold forall_adjust. intros H i96 has_md pn d md tz claims cs ev Hd.
   rewrite forallb_forall in H. specialize (H i96 (all_bool_In _)).
   rewrite forallb_forall in H. specialize (H has_md (all_bool_In _)).
   rewrite forallb_forall in H. specialize (H pn (all_bool_In _)).
@@ -145,6 +145,7 @@ Proof.
   rewrite forallb_forall in H. specialize (H _ (np_results_In md)).
   rewrite forallb_forall in H. specialize (H tz (all_bool_In _)).
   rewrite forallb_forall in H. specialize (H claims (all_bool_In _)).
+  rewrite forallb_forall in H. specialize (H cs (all_bool_In _)).
   rewrite forallb_forall in H. exact (H ev (ev_cases_In _)).
 Qed.
 
@@ -153,8 +154,8 @@ Definition fix_ok (tz : bool) (r : res) : bool :=
   match r with ROk d => dt_eqb (realise tz d) d | RErr => true end.
 
 Lemma adjust_fix_check :
-  forall_adjust (fun i96 has_md pn d np tz claims ev =>
-                   if i96 then fix_ok tz (adjust pinned true has_md pn d np tz claims ev) else true) = true.
+  forall_adjust (fun i96 has_md pn d np tz claims cs ev =>
+                   if i96 then fix_ok tz (adjust pinned true has_md pn d np tz claims cs ev) else true) = true.
 Proof. vm_compute. reflexivity. Qed.
 
 (* For EVERY schema element with a valid physical type, every pandas-metadata entry (any text), every list of
@@ -164,15 +165,15 @@ Theorem realise_fixpoint : forall has_md pn se md i rgs as_cat d,
   (se_type se < 8)%N ->
   predict pinned has_md pn se md i rgs as_cat = ROk d -> realise (md_tzflag md) d = d.
 Proof.
-  intros has_md pn se md i rgs as_cat d Ht. unfold predict, base_dtype, base_dtype_gen.
+  intros has_md pn se md i rgs as_cat d Ht. unfold predict, base_dtype, base_dtype_gen. cbn [r_int96_tz r_absent_counts r_cat_md repaired].
   destruct (se_group se).
   - destruct as_cat; intros H; inversion H; reflexivity.
   - destruct (typemap pinned se md) as [d0|] eqn:Etm; [|discriminate].
     pose proof (typemap_codomain_ok _ _ _ Ht Etm) as Hin.
     pose proof (forall_adjust_spec _ adjust_fix_check true has_md pn d0 md (md_tzflag md)
-                                   (md_claims_int_or_bool md) (null_evidence i rgs) Hin) as Hc.
+                                   (md_claims_gen true md) (md_cat_skip true md) (null_evidence_gen true i rgs) Hin) as Hc.
     cbv beta iota in Hc.
-    destruct (adjust pinned true has_md pn d0 _ (md_tzflag md) (md_claims_int_or_bool md) (null_evidence i rgs)) as [d1|];
+    destruct (adjust pinned true has_md pn d0 _ (md_tzflag md) (md_claims_gen true md) (md_cat_skip true md) (null_evidence_gen true i rgs)) as [d1|];
       [|discriminate].
     cbn [fix_ok] in Hc. apply dt_eqb_eq in Hc.
     destruct as_cat; intros H; inversion H; subst; [reflexivity|exact Hc].
@@ -215,13 +216,16 @@ Qed.
 (* ---- C17_null_evidence ------------------------------------------------------------------------ *)
 Definition np_int_or_bool (d : dt) : bool := match d with DInt _ _ | DBool => true | _ => false end.
 
-Definition no_evidence_rg (i : nat) (rg : rgroup) : Prop :=
+(* "this row group gives no reason to expect a NULL in chunk i": it is empty, or the chunk's statistics report
+   null_count = 0 - or, on the pinned tree only (absent = false), carry no null_count at all *)
+Definition no_evidence_rg (absent : bool) (i : nat) (rg : rgroup) : Prop :=
   rg_rows rg = 0%N \/
-  exists nc, nth_error (rg_chunks rg) i = Some (Some nc) /\ (nc = None \/ nc = Some 0%N).
+  exists nc, nth_error (rg_chunks rg) i = Some (Some nc) /\ (nc = Some 0%N \/ (absent = false /\ nc = None)).
 
-Lemma null_evidence_false i rgs : null_evidence i rgs = Some false <-> Forall (no_evidence_rg i) rgs.
+Lemma null_evidence_false absent i rgs :
+  null_evidence_gen absent i rgs = Some false <-> Forall (no_evidence_rg absent i) rgs.
 Proof.
-  induction rgs as [|rg r IH]; cbn [null_evidence].
+  induction rgs as [|rg r IH]; cbn [null_evidence_gen].
   - split; [constructor|reflexivity].
   - destruct (N.eqb_spec (rg_rows rg) 0) as [E|E].
     + rewrite IH. split; intros H.
@@ -230,14 +234,18 @@ Proof.
     + destruct (nth_error (rg_chunks rg) i) as [[[n|]|]|] eqn:En.
       * destruct (N.eqb_spec n 0) as [E0|E0].
         -- rewrite IH. split; intros H.
-           ++ constructor; [right; exists (Some n); split; [exact En|right; now subst]|exact H].
+           ++ constructor; [right; exists (Some n); split; [exact En|left; now subst]|exact H].
            ++ now inversion H.
         -- split; [discriminate|]. intros H. inversion H as [|? ? H1 H2]; subst.
            destruct H1 as [H1|(nc & H1 & H3)]; [contradiction|].
-           rewrite En in H1. inversion H1; subst. destruct H3 as [H3|H3]; [discriminate|]. inversion H3. contradiction.
-      * rewrite IH. split; intros H.
-        -- constructor; [right; exists None; split; [exact En|now left]|exact H].
-        -- now inversion H.
+           rewrite En in H1. inversion H1; subst. destruct H3 as [H3|[_ H3]]; [|discriminate]. inversion H3. contradiction.
+      * destruct absent.
+        -- split; [discriminate|]. intros H. inversion H as [|? ? H1 H2]; subst.
+           destruct H1 as [H1|(nc & H1 & H3)]; [contradiction|].
+           rewrite En in H1. inversion H1; subst. destruct H3 as [H3|[H3 _]]; discriminate.
+        -- rewrite IH. split; intros H.
+           ++ constructor; [right; exists None; split; [exact En|right; now split]|exact H].
+           ++ now inversion H.
       * split; [discriminate|]. intros H. inversion H as [|? ? H1 H2]; subst.
         destruct H1 as [H1|(nc & H1 & _)]; [contradiction|]. rewrite En in H1. discriminate.
       * split; [discriminate|]. intros H. inversion H as [|? ? H1 H2]; subst.
@@ -252,22 +260,24 @@ Lemma npnames_link_check :
           (t_npnames pinned) = true.
 Proof. vm_compute. reflexivity. Qed.
 
-Definition link_ok (np : option res) (claims : bool) : bool :=
-  match np with Some (ROk d1) => implb (np_int_or_bool d1) claims | _ => true end.
+(* where the looked-up numpy_type is USED (not a skipped categorical entry), an int/bool reading of it comes with the claim *)
+Definition link_ok (np : option res) (claims cat_skip : bool) : bool :=
+  cat_skip || match np with Some (ROk d1) => implb (np_int_or_bool d1) claims | _ => true end.
 
-Lemma link_holds md :
-  link_ok (option_map (fun m => lookup_name (t_npnames pinned) (md_numpy m)) md) (md_claims_int_or_bool md) = true.
+Lemma link_holds cat_md md :
+  link_ok (option_map (fun m => lookup_name (t_npnames pinned) (md_numpy m)) md) (md_claims_gen cat_md md) (md_cat_skip cat_md md) = true.
 Proof.
-  destruct md as [m|]; [|reflexivity]. cbn [option_map link_ok].
+  destruct md as [m|]; [|reflexivity]. unfold link_ok, md_cat_skip, md_claims_gen. cbn [option_map].
+  destruct (cat_md && bytes_eqb (md_pandas m) (b_ "categorical")) eqn:Ec; [reflexivity|]. cbn [orb negb].
   destruct (lookup_name (t_npnames pinned) (md_numpy m)) as [d1|] eqn:E; [|reflexivity].
   apply lookup_name_In in E. pose proof npnames_link_check as H. rewrite forallb_forall in H.
-  specialize (H _ E). exact H.
+  specialize (H _ E). cbn [fst snd] in H. rewrite andb_true_r. exact H.
 Qed.
 
 Lemma adjust_evidence_check :
-  forall_adjust (fun i96 has_md pn d np tz claims ev =>
-     match adjust pinned i96 has_md pn d np tz claims ev with
-     | ROk d' => implb (np_int_or_bool d' && negb (has_md && claims) && link_ok np claims)
+  forall_adjust (fun i96 has_md pn d np tz claims cs ev =>
+     match adjust pinned i96 has_md pn d np tz claims cs ev with
+     | ROk d' => implb (np_int_or_bool d' && negb (has_md && claims) && link_ok np claims cs)
                        (match ev with Some false => true | _ => false end)
      | RErr => true
      end) = true.
@@ -275,35 +285,60 @@ Proof. vm_compute. reflexivity. Qed.
 
 (* If the prediction for a field is a plain numpy int/bool dtype - one that cannot hold a NULL - and it was not
    taken on trust from the pandas metadata, then in EVERY non-empty row group the chunk at the field's position
-   carries statistics whose null_count is 0 or absent.  (Any number of row groups; old and repaired tree.) *)
-Theorem null_evidence_sound : forall i96 has_md pn se md i rgs d,
+   carries statistics with null_count = 0 (repaired tree; on the pinned tree: 0 or absent).  Any number of row groups. *)
+Theorem null_evidence_sound : forall R has_md pn se md i rgs d,
   (se_type se < 8)%N ->
-  base_dtype_gen i96 pinned has_md pn se md i rgs = ROk d ->
-  np_int_or_bool d = true -> has_md && md_claims_int_or_bool md = false ->
-  Forall (no_evidence_rg i) rgs.
+  base_dtype_gen R pinned has_md pn se md i rgs = ROk d ->
+  np_int_or_bool d = true -> has_md && md_claims_gen (r_cat_md R) md = false ->
+  Forall (no_evidence_rg (r_absent_counts R) i) rgs.
 Proof.
-  intros i96 has_md pn se md i rgs d Ht. unfold base_dtype_gen.
+  intros R has_md pn se md i rgs d Ht. unfold base_dtype_gen.
   destruct (se_group se); [intros H; inversion H; subst; discriminate|].
   destruct (typemap pinned se md) as [d0|] eqn:Etm; [|discriminate].
   pose proof (typemap_codomain_ok _ _ _ Ht Etm) as Hin.
-  pose proof (forall_adjust_spec _ adjust_evidence_check i96 has_md pn d0 md (md_tzflag md)
-                                 (md_claims_int_or_bool md) (null_evidence i rgs) Hin) as Hc.
+  pose proof (forall_adjust_spec _ adjust_evidence_check (r_int96_tz R) has_md pn d0 md (md_tzflag md)
+                                 (md_claims_gen (r_cat_md R) md) (md_cat_skip (r_cat_md R) md)
+                                 (null_evidence_gen (r_absent_counts R) i rgs) Hin) as Hc.
   cbv beta in Hc. rewrite link_holds in Hc.
   intros H Hk Hcl. rewrite H in Hc. rewrite Hk, Hcl in Hc. cbn in Hc.
-  apply null_evidence_false. destruct (null_evidence i rgs) as [[|]|]; try discriminate. reflexivity.
+  apply null_evidence_false. destruct (null_evidence_gen (r_absent_counts R) i rgs) as [[|]|]; try discriminate. reflexivity.
 Qed.
 
-(* with exact null counts (C04) that are always written (fastparquet's writer), no NULL cell exists *)
+(* ... and then, if the null counts that ARE written are exact (C04), no NULL cell exists in the column *)
 Theorem no_null_reaches_plain_dtype : forall i rgs (actual : list N),
-  Forall (no_evidence_rg i) rgs ->
+  Forall (no_evidence_rg true i) rgs ->
   Forall2 (fun rg a => (rg_rows rg = 0%N -> a = 0%N) /\
-                       forall nc, nth_error (rg_chunks rg) i = Some (Some nc) -> nc = Some a) rgs actual ->
+                       forall n, nth_error (rg_chunks rg) i = Some (Some (Some n)) -> n = a) rgs actual ->
   Forall (fun a => a = 0%N) actual.
 Proof.
   intros i rgs actual H. revert actual. induction H as [|rg r Hrg Hr IH]; intros actual H2; inversion H2; subst; constructor.
   - destruct H1 as [Hz Hnc]. destruct Hrg as [E|(nc & En & Ez)]; [auto|].
-    specialize (Hnc _ En). destruct Ez as [Ez|Ez]; subst; [discriminate|]. now inversion Hnc.
+    destruct Ez as [Ez|[Ez _]]; [|discriminate]. subst. symmetry. now apply Hnc.
   - now apply IH.
+Qed.
+
+(* the pinned tree took statistics WITHOUT a null_count for "no nulls": a plain int64 is predicted although a
+   non-empty row group says nothing about nulls (repaired by a fix: commit) *)
+Lemma absent_null_count_old_refuted :
+  exists se rgs rg,
+    base_dtype_gen pinned_rules pinned false true se None 0 rgs = ROk (DInt true 64) /\
+    In rg rgs /\ rg_rows rg <> 0%N /\ nth_error (rg_chunks rg) 0 = Some (Some None) /\
+    base_dtype_gen repaired pinned false true se None 0 rgs = ROk (DNInt true 64).
+Proof.
+  exists (mk_se 2 None None 0 false), [mk_rg 5 [Some None]], (mk_rg 5 [Some None]).
+  split; [vm_compute; reflexivity|]. split; [now left|]. split; [discriminate|]. split; reflexivity.
+Qed.
+
+(* the pinned tree trusted the numpy_type of a CATEGORICAL entry (the dtype of the codes): a categorical column of
+   integers read as plain values is predicted int64 although its statistics report nulls (repaired by a fix: commit) *)
+Lemma categorical_md_old_refuted :
+  exists se md rgs,
+    base_dtype_gen pinned_rules pinned true true se (Some md) 0 rgs = ROk (DInt true 64) /\
+    null_evidence_gen false 0 rgs = Some true /\
+    base_dtype_gen repaired pinned true true se (Some md) 0 rgs = ROk (DNInt true 64).
+Proof.
+  exists (mk_se 2 None None 0 false), (mk_md (b_ "int8") (b_ "categorical") false), [mk_rg 5 [Some (Some 2%N)]].
+  repeat split; vm_compute; reflexivity.
 Qed.
 
 (* ---- C17_counts --------------------------------------------------------------------------------- *)
